@@ -51,10 +51,15 @@ def main(tier):
             points += sum(min(x.get('K', 0), maxk) for x in chk.last_results.values())
         samples.append(progfam.expr_text(json.loads(pick[0])))
     eager = [json.dumps({'k': 'eager', 'op': op}) for op in (EAGER if tier == 'thorough' else EAGER[:-1])]
-    n1, _ = progfam.replay(chk, eager, 4, ['--maxk=%d' % (12 if tier == 'quick' else 120), '--trace=%s/traceE{j}.ndjson' % work],
-                           OWNED, tag='eager', mode='cancel', jobs=14, chunk=1, sig_of=sig)
-    total += n1
-    points += sum(min(x.get('K', 0), 12 if tier == 'quick' else 120) for x in chk.last_results.values())
+    # the non-convex Minkowski sum runs hundreds of Booleans per evaluation (minutes under ASan): fewer cancel points for it
+    heavy = [e for e in eager if 'MinkowskiSumNC' in e]
+    light = [e for e in eager if e not in heavy]
+    for grp, mk, tg in ((light, 12 if tier == 'quick' else 120, 'E'), (heavy, 10, 'H')):
+        if not grp: continue
+        n1, _ = progfam.replay(chk, grp, 4, ['--maxk=%d' % mk, '--trace=%s/trace%s{j}.ndjson' % (work, tg)],
+                               OWNED, tag='eager' + tg, mode='cancel', jobs=14, chunk=1, sig_of=sig)
+        total += n1
+        points += sum(min(x.get('K', 0), mk) for x in chk.last_results.values())
     samples.append('eager: ' + ', '.join(EAGER))
     # trace validation of every recorded run against Ctx_Trace.tla
     traces = sorted(glob.glob(work + '/trace*.ndjson'))
